@@ -34,6 +34,10 @@ JConv(e) ==
               LET A == FA!Aut(e.A) LG == CfgLang(e.G, e.L) LR == CfgLang(e.R, e.L) IN
               Chk(\A w \in Words(e) : (w \in LR) <=> (w \in LG /\ FA!Accepts(A, w)), e.op)
               \cup Chk(\A w \in LR : w \in Words(e), e.op \o ".alphabet")
+              \cup (IF Has(e, "rexc") THEN Fl(e.op \o ".result_contains.noexc")
+                    ELSE IF Has(e, "racc")
+                    THEN Chk(\A w \in Words(e) : (w \in ToSet(e.racc)) <=> (w \in LG /\ FA!Accepts(A, w)), e.op \o ".result_contains")
+                    ELSE {})
 (* any other operand type must raise NotImplementedError *)
 JBadOperand(e) == Chk(Has(e, "exc") /\ e.exc = "NotImplementedError", e.op)
 Judge(e) ==
